@@ -148,7 +148,7 @@ class EntityEval(DescriptorMixin, EvalContract):
     """symbolic.Entity._evaluate__ with one selected variable (K=1) – called by An with a dict (never None)."""
     qual = 'symbolic:Entity._evaluate__'
     cls = 'Entity'
-    props = ('C01', 'C15', 'C16')
+    props = ('C01', 'C15', 'C16', 'C19')
     K = 1
     source_cases = ('empty', 'nonempty')
     trusted = ("requires `sources` is a dict (An._evaluate__, the only caller, passes `sources or {}`)",
@@ -170,7 +170,7 @@ class QODEvaluate(DescriptorMixin, EvalContract):
     unbound selected variable is completed over its domain (Cartesian product), a bound one keeps its binding."""
     qual = 'symbolic:QueryObjectDescriptor._evaluate_'
     cls = 'QueryObjectDescriptor'
-    props = ('C01', 'C02', 'C16')
+    props = ('C01', 'C02', 'C15', 'C16', 'C19')
     K = 1
     inline_gens = ('_bind_selected_variables_',)
     trusted = ("no rule conclusions attached (query mode); rule mode is covered by contracts/rules.py",
@@ -307,10 +307,12 @@ class QODEvaluate0(QODEvaluate):
 
 
 class SetOfEval(DescriptorMixin, EvalContract):
+    """symbolic.SetOf._evaluate__ with one selected variable (the comprehension over the selected variables is
+    unrolled; SetOfEval2, thorough tier, does the same with two)"""
     qual = 'symbolic:SetOf._evaluate__'
     cls = 'SetOf'
-    props = ('C02', 'C15', 'C16')
-    K = 2
+    props = ('C02', 'C15', 'C16', 'C19')
+    K = 1
     source_cases = ('empty', 'nonempty')
     trusted = ("requires `sources` is a dict (An._evaluate__, the only caller, passes `sources or {}`)",)
 
@@ -350,4 +352,9 @@ class SetOfEval(DescriptorMixin, EvalContract):
         return outs
 
 
-CONTRACTS = [AnEval, EntityEval, EntityNoVarEval, QODEvaluate, QODEvaluateLeaf, QODEvaluate2, QODEvaluate0, SetOfEval]
+class SetOfEval2(SetOfEval):
+    K = 2
+    tiers = ('thorough',)
+
+
+CONTRACTS = [SetOfEval2, AnEval, EntityEval, EntityNoVarEval, QODEvaluate, QODEvaluateLeaf, QODEvaluate2, QODEvaluate0, SetOfEval]
